@@ -765,21 +765,31 @@ def skipTableAUTOUGH2 (tablename : String) : M Unit := do
   let _ ← readUntil (fun l => slice l 1 6 == keyword) false
   let _ ← readline
 
+/-- the row loop of read_table_TOUGH2 over the lines still to be read:
+    `for skip in table.skiplines: line = readline(); table[key_from_line(line)] = read_table_line(line); skiplines(skip)`;
+    returns the table and the lines left (at end of file `readline()` gives `''` and stays) -/
+def readRowsL (keyPos : List Int) (ncols : Nat) (numpos : List (Option Int)) : List Nat → List Str → Table → Except Exc (Table × List Str)
+  | [], rest, t => .ok (t, rest)
+  | skip :: more, rest, t =>
+    match keyFromLine (rest.headD []) keyPos with
+    | .error e => .error e
+    | .ok key =>
+      match readTableLineTOUGH2 (rest.headD []) ncols numpos with
+      | .error e => .error e
+      | .ok vals =>
+        match t.setRow key vals with
+        | .error e => .error e
+        | .ok t' => readRowsL keyPos ncols numpos more ((rest.drop 1).drop skip) t'
+
 def readTableTOUGH2 (tablename : String) : M Unit := do
   let t ← getTable tablename
-  let ncols := t.cols.length
   skiplines t.headerSkip
-  let rec loop : List Nat → Table → M Table
-    | [], t => pure t
-    | skip :: r, t => do
-      let line ← readline
-      let key ← keyOfLine line t.keyPos
-      let vals ← liftE (readTableLineTOUGH2 line ncols t.numpos)
-      let t' ← liftE (t.setRow key vals)
-      skiplines skip
-      loop r t'
-  let t' ← loop t.skips t
-  putTable tablename t'
+  let s ← get
+  match readRowsL t.keyPos t.cols.length t.numpos t.skips s.pos.rest t with
+  | .error e => raise e
+  | .ok (t', rest') =>
+    set { s with pos := ⟨s.pos.no + (s.pos.rest.length - rest'.length), rest'⟩ }
+    putTable tablename t'
 
 def skipTableTOUGH2 (tablename : String) : M Unit := do
   match (← get).tables.lookup tablename with
